@@ -90,6 +90,33 @@ func generate(w *mon.W) {
 		c := &Case{X: tr, Pos: "extend", Seed: 2}
 		w.Do("u|"+Canon(tr), func(r *mon.R) { Check(c, r) })
 	}
+	// flat operator sequences a o1 b o2 c [in (…)] and a in (…) o1 b o2 c over all
+	// binary operators, typing disregarded: the grouping the grammar prescribes
+	// (computed by the shunting-yard reference) is the meaning
+	{
+		opnd := func(i int) *E { return []*E{Name("ia"), Name("ib"), Num("2"), Name("ba")}[i%4] }
+		for _, o1 := range BinOps {
+			for _, o2 := range BinOps {
+				for form := 0; form < 3; form++ {
+					f := FlatExpr{InList: []*E{Num("1"), Name("ib")}}
+					switch form {
+					case 0:
+						f.Operands, f.Ops = []*E{opnd(0), opnd(1), opnd(2)}, []string{o1, o2, "in"}
+					case 1:
+						f.Operands, f.Ops = []*E{opnd(0), opnd(1), opnd(2)}, []string{"in", o1, o2}
+					default:
+						f.Operands, f.Ops = []*E{opnd(0), opnd(1), opnd(2), opnd(3)}, []string{o1, "in", o2, o1}
+					}
+					if o1 == "in" || o2 == "in" {
+						continue
+					}
+					x := ShuntingYard(f)
+					c := &Case{X: x, Pos: "extend", Seed: 7}
+					w.Do(fmt.Sprint("flat|", form, "|", o1, "|", o2), func(r *mon.R) { Check(c, r) })
+				}
+			}
+		}
+	}
 	// comparisons of comparisons in join conditions, every placement of the
 	// two sides (the compiler special-cases == between $left and $right terms)
 	{
